@@ -4,7 +4,7 @@ import (
 	"go/types"
 	"strings"
 
-	"golang.org/x/tools/go/ssa"
+	"ikeverif/checker/xt/ssa"
 )
 
 // codecFuncs lists the decoder and encoder functions whose tables E5 builds.
